@@ -54,6 +54,9 @@ Allowed(st, ev) ==
     \* the token presented to ANOTHER live sandbox of the same type, which has registered nothing:
     \* tokens are per sandbox
     [] ev.e = "xlookup" -> ev.out = "abort"
+    \* an owner whose scope was left by an exception (destructor run during stack unwinding) has
+    \* released its token like any other destroyed owner: looking the token up aborts
+    [] ev.e = "unwound" -> ev.lookup = "abort" \/ ev.t \in DOMAIN st.live
     [] ev.e = "olookup" ->
          /\ st.own[ev.o] \notin {None, 0}
          /\ ev.out = "ok" /\ ev.p = st.live[st.own[ev.o]] /\ ev.t = st.own[ev.o]
